@@ -316,6 +316,16 @@ def body_end_to_end(ctx, kind):
             ctx.check(False, 'a dataset nothing matches is refused by the accessor')
         except RuntimeError:
             ctx.check(True, 'a dataset nothing matches is refused by the accessor')
+        if kind in ('cf1d', 'cf2d') and removed:
+            # the same Dataset object completed in place afterwards (the attributes that were missing are added):
+            # detection looks at the dataset as it is now
+            target = ds['lat'] if kind == 'cf1d' else ds['lon']
+            target.attrs.update(units='degrees_north' if kind == 'cf1d' else 'degrees_east', standard_name='latitude' if kind == 'cf1d' else 'longitude')
+            try:
+                bound = type(ds.ems).__name__
+            except RuntimeError:
+                bound = None
+            ctx.check(bound == ('CFGrid1D' if kind == 'cf1d' else 'CFGrid2D'), 'a dataset refused earlier and completed in place is detected as what it now is')
     else:
         ctx.check(type(ds.ems).__name__ == expect, 'the accessor binds the detected convention')
     if kind in ('shoc_simple', 'shoc_standard') and not removed:
